@@ -156,6 +156,50 @@ pub fn check_cluster(b: &Built, rec: &Recorder, c: &mut Counters) -> u64 {
         t.extend(extra);
         Violation::new(clause, call, format!("{}|{sub}", b.case), format!("{}\n{detail}", b.describe())).with_tags(t).with_snippet(b.snippet(&format!("    // {call}: {}\n", detail.replace('\n', " "))))
     };
+    // name LISTS with repeats: the per-node maps must be those of the set; the average must be the mean over the
+    // distinct names or over the list with multiplicity (both readings of "the counted coefficients" are accepted)
+    if n >= 1 && !b.kind.multi && b.edges.len() <= 3 {
+        for i in 0..n {
+            for j in [i, (i + 1) % n] {
+                let list: Vec<N> = vec![b.names[i], b.names[j], b.names[i]];
+                let mut set = list.clone();
+                set.sort();
+                set.dedup();
+                for &weighted in &weighted_modes {
+                    calls += 1;
+                    let (rl, rs) = (guarded(|| cluster::clustering(&b.g, weighted, Some(&list))), guarded(|| cluster::clustering(&b.g, weighted, Some(&set))));
+                    let (ml, ms) = match (rl, rs) {
+                        (Ok(Ok(a)), Ok(Ok(z))) => (a, z),
+                        (Ok(Err(a)), Ok(Err(z))) if format!("{:?}", a.kind) == format!("{:?}", z.kind) => continue,
+                        (Err(pi), _) | (_, Err(pi)) => {
+                            rec.record(mk("no_panic", "cluster::clustering", format!("list:w={weighted}:{list:?}"), pi.msg.clone(), vec![]).with_panic(pi));
+                            continue;
+                        }
+                        (a, z) => {
+                            rec.record(mk("node_list_with_repeats", "cluster::clustering", format!("list:w={weighted}:{list:?}"), format!("clustering({list:?}) ok={} but clustering({set:?}) ok={}", matches!(a, Ok(Ok(_))), matches!(z, Ok(Ok(_)))), vec![]));
+                            continue;
+                        }
+                    };
+                    if ml.len() != ms.len() || ml.iter().any(|(k, v)| !ms.get(k).map_or(false, |w| close(*v, *w, 1e-12))) {
+                        rec.record(mk("node_list_with_repeats", "cluster::clustering", format!("list:w={weighted}:{list:?}"), format!("clustering({list:?}) = {ml:?} but clustering({set:?}) = {ms:?}"), vec![]));
+                    }
+                    for count_zeros in [false, true] {
+                        let vals_set: Vec<f64> = set.iter().filter_map(|k| ms.get(k).cloned()).filter(|x| count_zeros || x.abs() > 0.0).collect();
+                        let vals_list: Vec<f64> = list.iter().filter_map(|k| ms.get(k).cloned()).filter(|x| count_zeros || x.abs() > 0.0).collect();
+                        if vals_set.is_empty() {
+                            continue;
+                        }
+                        let (e1, e2) = (vals_set.iter().sum::<f64>() / vals_set.len() as f64, vals_list.iter().sum::<f64>() / vals_list.len() as f64);
+                        if let Ok(Ok(got)) = guarded(|| cluster::average_clustering(&b.g, weighted, Some(&list), count_zeros)) {
+                            if !close(got, e1, 1e-9) && !close(got, e2, 1e-9) {
+                                rec.record(mk("average_clustering", "cluster::average_clustering", format!("avglist:w={weighted}:cz={count_zeros}:{list:?}"), format!("average_clustering(weighted={weighted}, {list:?}, count_zeros={count_zeros}) = {got}; the mean over the distinct names is {e1}, over the list with repeats {e2}"), vec![]));
+                            }
+                        }
+                    }
+                }
+            }
+        }
+    }
     for s in &subsets {
         let names: Option<Vec<N>> = s.as_ref().map(|v| v.iter().map(|i| b.names[*i]).collect());
         let sel: Vec<usize> = s.clone().unwrap_or_else(|| (0..n).collect());
@@ -415,9 +459,9 @@ pub fn run(tier: &str, rec: &Recorder) -> RunOutput {
     let deadline = start + Duration::from_secs_f64(wall_cap_s(tier));
     let stats = E2Stats::new();
     let seed = std::env::var("VERIF_SEED").ok().and_then(|s| s.parse().ok()).unwrap_or(0);
-    for f in c11_families(tier) {
-        for_each_graph(&f, seed, deadline, &stats, |b, c| check_cluster(b, rec, c));
-    }
+    for_each_family(&c11_families(tier), |f| {
+        for_each_graph(f, seed, deadline, &stats, |b, c| check_cluster(b, rec, c));
+    });
     fill_e2_coverage(&mut out, &stats);
     out.set("traces_validated_against_impl", out.get("transitions"));
     out.set("distinct_nontrivial", out.get("nonzero_coefficients"));
